@@ -29,6 +29,8 @@ def main(plan_path, out_path):
         if d[0] in ("list", "tuple"):
             r = [build(x) for x in d[1]]
             return r if d[0] == "list" else tuple(r)
+        if d[0] == "dict":
+            return dict(("f%d" % (i + 1), build(x)) for i, x in d[1])
         return build_arg(ffi, d, [], [])
 
     def enc(v):
